@@ -12,6 +12,10 @@ use rustemo::TreeNode;
 use rustemo_compiler::verif::Dump;
 use serde_json::{json, Value};
 
+fn rng_allow_empty() -> bool {
+    true
+}
+
 /// Validates one tree against the abstract grammar, independent of the language.
 /// Returns the symbol the node stands for.
 fn validate(t: &LTree, g: &AG, d: &Dump, m: &Map, errs: &mut Vec<String>) -> Option<Sym> {
@@ -79,10 +83,11 @@ fn judge_tree(t: &LTree, g: &AG, d: &Dump, m: &Map, input: &str, toks: &[(usize,
     errs
 }
 
-pub fn run_variant(g: &AG, spec: &SetSpec, wd: &Workdir, rep: &mut Rep, rng: &mut Rng, maxlen: usize, fixed: Option<(Vec<usize>, String)>) {
-    let text = g.text();
+pub fn run_variant(g: &AG, spec: &SetSpec, wd: &Workdir, rep: &mut Rep, rng: &mut Rng, maxlen: usize, fixed: Option<(Vec<usize>, String, Vec<(usize, usize)>)>, family: u8) {
+    // family > 0: the grammar gets a user Layout rule (whitespace / comments) and inputs carry such layout
+    let text = if family > 0 { crate::c14::grammar_text(g, family) } else { g.text() };
     let agj = g.to_json();
-    let case0 = |extra: Value| json!({"grammar": text, "ag": agj, "settings": spec.to_json(), "extra": extra});
+    let case0 = |extra: Value| json!({"grammar": text, "ag": agj, "settings": spec.to_json(), "family": family, "extra": extra});
     crate::rep::watchdog::set(|| case0(json!(null)).to_string());
     let c = wd.compile(&text, spec);
     rep.count("compilations", 1);
@@ -104,21 +109,21 @@ pub fn run_variant(g: &AG, spec: &SetSpec, wd: &Workdir, rep: &mut Rep, rng: &mu
         return;
     };
     let mut inputs: Vec<(Vec<usize>, String, Vec<(usize, usize, usize)>)> = vec![];
-    if let Some((w, input)) = fixed {
-        // re-locate tokens
-        let mut toks = vec![];
-        let mut pos = 0;
-        for t in &w {
-            let Rec::Lit(l) = &g.terms[*t].rec else { panic!() };
-            let at = input[pos..].find(l.as_str()).unwrap() + pos;
-            toks.push((*t, at, at + l.len()));
-            pos = at + l.len();
-        }
+    if let Some((w, input, spans)) = fixed {
+        let toks = w.iter().zip(spans.iter()).map(|(t, s)| (*t, s.0, s.1)).collect();
         inputs.push((w, input, toks));
     } else {
         let l = len_for(g.terms.len(), maxlen, 1200);
+        let mut lay = |g: &AG, w: &[usize], rng: &mut Rng| {
+            let mut r2 = rng.clone();
+            let lead = crate::c14::gen_layout(&mut r2, family, true, false);
+            let trail = crate::c14::gen_layout(&mut r2, family, true, true);
+            let res = render(g, w, |_| crate::c14::gen_layout(&mut r2, family, rng_allow_empty(), false), &lead, &trail);
+            *rng = r2;
+            res
+        };
         for w in all_strings(g.terms.len(), l) {
-            let (input, toks) = if rng.chance(0.2) { render_ws(g, &w, rng) } else { render_plain(g, &w) };
+            let (input, toks) = if family > 0 { lay(g, &w, rng) } else if rng.chance(0.2) { render_ws(g, &w, rng) } else { render_plain(g, &w) };
             inputs.push((w, input, toks));
         }
         for _ in 0..8 {
@@ -137,7 +142,7 @@ pub fn run_variant(g: &AG, spec: &SetSpec, wd: &Workdir, rep: &mut Rep, rng: &mu
                             _ => w[i] = rng.below(g.terms.len()),
                         }
                     }
-                    let (input, toks) = render_ws(g, &w, rng);
+                    let (input, toks) = if family > 0 { lay(g, &w, rng) } else { render_ws(g, &w, rng) };
                     inputs.push((w.clone(), input, toks));
                 }
             }
@@ -146,7 +151,7 @@ pub fn run_variant(g: &AG, spec: &SetSpec, wd: &Workdir, rep: &mut Rep, rng: &mu
     let mut ok3 = false;
     let mut hangs = 0;
     for (w, input, toks) in &inputs {
-        let case = |extra: Value| json!({"grammar": text, "ag": agj, "settings": spec.to_json(), "input": input, "tokens": w, "extra": extra});
+        let case = |extra: Value| json!({"grammar": text, "ag": agj, "settings": spec.to_json(), "family": family, "input": input, "tokens": w, "spans": toks.iter().map(|t| vec![t.1, t.2]).collect::<Vec<_>>(), "extra": extra});
         let sig = |k: &str| format!("{}:{}:{}:{}", k, fnv(&text), fnv(&spec.to_json().to_string()), fnv(input));
         crate::rep::watchdog::set(|| case(json!(null)).to_string());
         rep.count("evaluations", 1);
@@ -216,8 +221,14 @@ pub fn main(a: &Args) {
         let case = &v["case"];
         let g = AG::from_json(&case["ag"]);
         let spec = SetSpec::from_json(&case["settings"]);
-        let fixed = case["input"].as_str().map(|i| (case["tokens"].as_array().unwrap().iter().map(|x| x.as_u64().unwrap() as usize).collect(), i.to_string()));
-        run_variant(&g, &spec, &wd, &mut rep, &mut rng, 5, fixed);
+        let fixed = case["input"].as_str().map(|i| {
+            (
+                case["tokens"].as_array().unwrap().iter().map(|x| x.as_u64().unwrap() as usize).collect(),
+                i.to_string(),
+                case["spans"].as_array().unwrap().iter().map(|x| (x[0].as_u64().unwrap() as usize, x[1].as_u64().unwrap() as usize)).collect(),
+            )
+        });
+        run_variant(&g, &spec, &wd, &mut rep, &mut rng, 5, fixed, case["family"].as_u64().unwrap_or(0) as u8);
         rep.finish();
         return;
     }
@@ -244,7 +255,11 @@ pub fn main(a: &Args) {
         for _ in 0..4 {
             let ann = random_meta(&base, &mut rng);
             let spec = SetSpec { ps: Some(rng.chance(0.6)), pse: Some(rng.chance(0.6)), ..SetSpec::lr(rng.below(2) as u8) };
-            run_variant(&ann, &spec, &wd, &mut rep, &mut rng, maxlen, None);
+            let family = if rng.chance(0.3) { rng.range(1, 3) as u8 } else { 0 };
+            if family > 0 {
+                rep.count("variants_with_layout_rule", 1);
+            }
+            run_variant(&ann, &spec, &wd, &mut rep, &mut rng, maxlen, None, family);
         }
     }
     rep.finish();
